@@ -1155,13 +1155,25 @@ def rule_all_of_merge_is_completed(repo: Repo, rep, rule: str = "R2.22") -> None
         f = bs.module.functions.get(d)
         if f is None:
             continue
-        txt_attrs = {x.attr for x in ast.walk(f.node) if isinstance(x, ast.Attribute)}
+        # the pass and the helpers of its module it delegates to (two levels)
+        body_nodes = [f.node]
+        frontier = [f.node]
+        for _ in range(2):
+            nxt = []
+            for fnode in frontier:
+                for c3 in calls_in(fnode):
+                    h3 = bs.module.functions.get(dotted(c3.func) or "")
+                    if h3 is not None and h3.node not in body_nodes:
+                        body_nodes.append(h3.node)
+                        nxt.append(h3.node)
+            frontier = nxt
+        txt_attrs = {x.attr for bn in body_nodes for x in ast.walk(bn) if isinstance(x, ast.Attribute)}
         fills = any(isinstance(st, (ast.Assign, ast.AugAssign)) and any(isinstance(t, ast.Attribute) and t.attr == "properties" for t in (st.targets if isinstance(st, ast.Assign) else [st.target]))
-                    for st in ast.walk(f.node)) or any(isinstance(c2.func, ast.Attribute) and c2.func.attr in ("update", "setdefault") and isinstance(c2.func.value, ast.Attribute)
-                                                       and c2.func.value.attr == "properties" for c2 in calls_in(f.node))
+                    for bn in body_nodes for st in ast.walk(bn)) or any(isinstance(c2.func, ast.Attribute) and c2.func.attr in ("update", "setdefault") and isinstance(c2.func.value, ast.Attribute)
+                                                                        and c2.func.value.attr == "properties" for bn in body_nodes for c2 in calls_in(bn))
         req = any(isinstance(st, (ast.Assign, ast.AugAssign)) and any(isinstance(t, ast.Attribute) and t.attr == "required" for t in (st.targets if isinstance(st, ast.Assign) else [st.target]))
-                  for st in ast.walk(f.node)) or any(isinstance(c2.func, ast.Attribute) and c2.func.attr in ("update", "extend", "append", "add") and isinstance(c2.func.value, ast.Attribute)
-                                                     and c2.func.value.attr == "required" for c2 in calls_in(f.node))
+                  for bn in body_nodes for st in ast.walk(bn)) or any(isinstance(c2.func, ast.Attribute) and c2.func.attr in ("update", "extend", "append", "add") and isinstance(c2.func.value, ast.Attribute)
+                                                                      and c2.func.value.attr == "required" for bn in body_nodes for c2 in calls_in(bn))
         if {"all_of", "_is_circular_ref"} <= txt_attrs and fills and req:
             passes.append((f, c))
     # the re-merge is not limited to schemas that *hold* a placeholder: `Admin: allOf [User]` holds the real `User`, which was itself incomplete
